@@ -1,7 +1,326 @@
-(* props/C06.v — placeholder while the invariance lemmas are being closed. *)
-From Coq Require Import List NArith ZArith String.
+(* props/C06.v — job creation fails only with documented errors, never for a missing variable.
+
+   Models: JobParams.v / Merge.v ([preprocess], [merge], [preprocess_merged] = what
+   preprocess_job_parameters does for one parameter name across environment templates + job
+   template), CreateJob.v ([symtab_of] = the symbol table create_job builds, [inst] =
+   instantiate_model), Export.v ([fs_resolve], [nodes_ok], [create_job_verdict]: Ok true = a Job,
+   Ok false = DecodeValidationError, Raise e = e escapes), ScopeWalk.v / ScopeSpec.v (reference
+   check; [vis_template] = names visible to creation-time format strings).
+   Proofs: JobParamsProofs.v, MergeProofs.v, NoMissingVar.v, CreateExn.v, ParseOutcomes.v. *)
+From Coq Require Import List NArith ZArith Bool String.
 Import ListNotations.
-Require Import OJD.Base OJD.Json OJD.Schema OJD.Generated.
+Require Import OJD.Base OJD.Lexer OJD.Json OJD.Schema OJD.Generated OJD.Numerals OJD.FormatStr OJD.FormatStrProofs
+               OJD.FsRefs OJD.CreateJob OJD.CreateJobProofs OJD.Parse OJD.Validators OJD.Accept OJD.Export
+               OJD.JobParams OJD.JobParamsProofs OJD.Merge OJD.MergeSpec OJD.MergeProofs
+               OJD.ScopeWalk OJD.ScopeSpec OJD.NoMissingVar OJD.CreateExn OJD.ParseOutcomes OJD.DecodeInv OJD.WellKeyed.
 Local Open Scope string_scope.
-Example C06_schema_has_root : match lookup_cls Generated.schema "JobTemplate" with Some _ => True | None => False end.
-Proof. vm_compute. exact I. Qed.
+Local Open Scope list_scope.
+
+(* ------------------------------------------------------------------ preprocess_job_parameters *)
+
+(* every failure of preprocessing with merged definitions is a ValueError: a refused merge
+   (CompatibilityError) is translated, the value checks raise ValueError only.  [ds] = the
+   definitions of one parameter (environment templates first, job template last), as decoded
+   ([wf_default]: a numeric default is the text of a number of that type). *)
+Theorem C06_preprocess_exn : forall dir_ok (path_in : str -> str) (path_default : str -> outcome str) ds vals e,
+  ds <> [] -> Forall wf_default ds ->
+  (forall t e', path_default t = Raise e' -> e' = ValueError) ->
+  preprocess_merged dir_ok path_in path_default ds vals = Raise e -> e = ValueError.
+Proof.
+  intros dir_ok path_in path_default ds vals e Hne Hwf Hpd H. unfold preprocess_merged in H.
+  destruct (merge false ds) as [m|e0] eqn:Em.
+  - eapply preprocess_error; eassumption.
+  - pose proof (merge_raise ds e0 Hne Hwf Em) as ->. injection H as <-. reflexivity.
+Qed.
+Print Assumptions C06_preprocess_exn.
+
+(* without environment templates (C10_error restated) *)
+Theorem C06_preprocess_exn_plain : forall (path_in : str -> str) (path_default : str -> outcome str) dir_ok defs vals e,
+  (forall t e', path_default t = Raise e' -> e' = ValueError) ->
+  preprocess false dir_ok path_in path_default defs vals = Raise e -> e = ValueError.
+Proof. exact preprocess_error. Qed.
+Print Assumptions C06_preprocess_exn_plain.
+
+(* ------------------------------------------------------------------ never a missing variable *)
+
+(* THE agreement between the scope at which creation-time fields are validated and the symbols
+   create_job defines.  [covers pdefs vals]: the values handed to create_job (name, type, value)
+   have the names of the declared job parameters, and the same names among the non-PATH ones:
+     (forall x, In x (all_params pdefs) <-> In x (map v_name vals)) /\
+     (forall x, In x (nonpath_params pdefs) <-> In x (map v_name (filter non-PATH vals))).
+   Then a name is visible at a TEMPLATE-scope site iff create_job binds it. *)
+Theorem C06_no_missing_var : forall pdefs vals, covers pdefs vals ->
+  forall n, vis_template pdefs n = true <-> In n (map fst (symtab_of vals)).
+Proof. exact vis_template_iff. Qed.
+Print Assumptions C06_no_missing_var.
+
+(* [covers] holds when vals has exactly the declared (name, type) pairs, in any order of values:
+   that is what preprocess_job_parameters returns (C10_result: one entry per definition, typed as
+   declared) *)
+Theorem C06_covers_declared : forall pdefs vals, map fst vals = decl_pairs pdefs -> covers pdefs vals.
+Proof. exact decl_pairs_covers. Qed.
+Print Assumptions C06_covers_declared.
+
+(* corollary chain, document side.  [template_sites j] = the values at the creation-time sites of
+   the document: job name, every task parameter range (items or range string), every host
+   requirement name and anyOf / allOf value.  If the document passes the pre-validation walk then
+   every name referenced there is bound by create_job and resolving the string SUCCEEDS. *)
+Theorem C06_sites_resolve : forall classify j vals,
+  covers (jget "parameterDefinitions" j) vals ->
+  prevalidate Generated.schema (fs_refs classify) "JobTemplate" j = [] ->
+  forall s, In (JStr s) (template_sites j) ->
+  forall names, fs_refs classify s = Some names ->
+  (forall n, In n names -> In n (map fst (symtab_of vals))) /\
+  (exists r, Export.fs_resolve classify (symtab_of vals) s = Ok r).
+Proof. exact sites_bound. Qed.
+Print Assumptions C06_sites_resolve.
+
+(* the job name: every referenced name is bound; the only way resolve can fail is a string that is
+   no format string at all (impossible for an accepted document: the field type checked it) *)
+Theorem C06_name_resolves : forall classify j vals s,
+  covers (jget "parameterDefinitions" j) vals ->
+  prevalidate Generated.schema (fs_refs classify) "JobTemplate" j = [] ->
+  jget "name" j = JStr s ->
+  (forall f, mk classify s = Ok f -> forall n, In n (FormatStrProofs.names f) -> In n (map fst (symtab_of vals))) /\
+  (forall e, Export.fs_resolve classify (symtab_of vals) s = Raise e ->
+             e = FormatStringError /\ mk classify s = Raise FormatStringError).
+Proof. exact name_bound. Qed.
+Print Assumptions C06_name_resolves.
+
+(* the premise "passes the walk" is what acceptance gives *)
+Theorem C06_accepted_prevalidated : forall classify j t,
+  decode_job classify j = Ok t -> prevalidate Generated.schema (fs_refs classify) "JobTemplate" j = [].
+Proof. exact decode_job_prevalidated. Qed.
+Print Assumptions C06_accepted_prevalidated.
+
+(* the sites above are exactly the fields create_job resolves (resolve_fields of the live classes) *)
+Theorem C06_resolve_fields :
+  resolve_table Generated.schema =
+  [("IntTaskParameterDefinition", ["range"]);
+   ("FloatTaskParameterDefinition", ["range"]);
+   ("StringTaskParameterDefinition", ["range"]);
+   ("PathTaskParameterDefinition", ["range"]);
+   ("AmountRequirementTemplate", ["name"]);
+   ("AttributeRequirementTemplate", ["allOf"; "anyOf"; "name"]);
+   ("JobTemplate", ["name"])].
+Proof. exact resolve_table_ok. Qed.
+Print Assumptions C06_resolve_fields.
+
+(* ------------------------------------------------------------------ create_job *)
+
+(* what can escape from the create_job model: never FormatStringError (caught: a validation
+   error); only KeyError (symtab["RawParam.<n>"] of a job parameter definition without a value),
+   TypeError / AttributeError (reshape key of a non-model / non-string key: the keyed classes are
+   listed in C06_reshape_classes, their key field is the constr "name"), RuntimeError (outside the
+   modelled domain).  A KeyError names a parameter definition of the template that has no value. *)
+Theorem C06_create_exn : forall classify vals t e,
+  create_job_verdict classify vals t = Raise e ->
+  e <> FormatStringError /\
+  (e = KeyError \/ e = TypeError \/ e = AttributeError \/ e = RuntimeError) /\
+  (e = KeyError -> exists n, In n (adds_names Generated.schema t) /\ ~ In n (map v_name vals)).
+Proof. exact create_job_verdict_raises. Qed.
+Print Assumptions C06_create_exn.
+
+(* instantiate_model alone, any schema and resolver that raises FormatStringError only *)
+Theorem C06_inst_exn : forall SC resolve sigma,
+  (forall s e, resolve sigma s = Raise e -> e = FormatStringError) ->
+  forall fuel v e, inst SC resolve sigma fuel v = Raise e ->
+  e = FormatStringError \/ e = KeyError \/ e = TypeError \/ e = AttributeError \/ e = RuntimeError.
+Proof. exact inst_raises. Qed.
+Print Assumptions C06_inst_exn.
+
+Theorem C06_inst_keyerror : forall SC resolve sigma,
+  (forall s e, resolve sigma s = Raise e -> e = FormatStringError) ->
+  forall fuel v, inst SC resolve sigma fuel v = Raise KeyError ->
+  exists n, In n (adds_names SC v) /\ st_lookup sigma ($"RawParam." ++ n) = None.
+Proof. exact inst_keyerror. Qed.
+Print Assumptions C06_inst_keyerror.
+
+(* with a value for every job parameter definition of the template: no KeyError *)
+Theorem C06_no_keyerror : forall SC resolve vals,
+  (forall s e, resolve (symtab_of vals) s = Raise e -> e = FormatStringError) ->
+  forall fuel v, (forall n, In n (adds_names SC v) -> In n (map v_name vals)) ->
+  inst SC resolve (symtab_of vals) fuel v <> Raise KeyError.
+Proof. exact inst_no_keyerror. Qed.
+Print Assumptions C06_no_keyerror.
+
+(* the resolver create_job uses meets the premise, for any class table *)
+Theorem C06_resolve_exn : forall classify sigma s e,
+  Export.fs_resolve classify sigma s = Raise e -> e = FormatStringError.
+Proof. exact fs_resolve_only_fse. Qed.
+Print Assumptions C06_resolve_exn.
+
+(* target-model validation of the instantiated tree raises nothing but "outside the domain" *)
+Theorem C06_nodes_exn : forall classify fuel v e, nodes_ok classify fuel v = Raise e -> e = RuntimeError.
+Proof. exact nodes_ok_raises. Qed.
+Print Assumptions C06_nodes_exn.
+
+Theorem C06_adds_value_classes :
+  adds_value_classes Generated.schema =
+  ["JobStringParameterDefinition"; "JobPathParameterDefinition"; "JobIntParameterDefinition"; "JobFloatParameterDefinition"].
+Proof. exact adds_value_classes_ok. Qed.
+Print Assumptions C06_adds_value_classes.
+
+Theorem C06_reshape_classes :
+  reshape_table Generated.schema =
+  [("StepParameterSpaceDefinition", [("taskParameterDefinitions", "name")]);
+   ("JobTemplate", [("parameterDefinitions", "name")])].
+Proof. exact reshape_table_ok. Qed.
+Print Assumptions C06_reshape_classes.
+
+(* ---- end to end, from acceptance ---- *)
+
+(* the instance tree of an ACCEPTED job template, as far as create_job's failure modes need it:
+   its job name is the document's name string (a well-formed format string), and its job parameter
+   definitions (the nodes whose creation reads symtab["RawParam.<name>"]) are declared parameters
+   of the document *)
+Theorem C06_accepted_inv : forall classify j t, decode_job classify j = Ok t ->
+  exists ms fields s,
+    j = JObj ms /\ t = MModel "JobTemplate" fields /\
+    jget "name" j = JStr s /\ mfield "name" fields = MFmt s /\ fs_ok classify s = true /\
+    incl (adds_names Generated.schema t) (all_params (jget "parameterDefinitions" j)).
+Proof. exact decode_job_inv. Qed.
+Print Assumptions C06_accepted_inv.
+
+(* accepted template + a value for every declared parameter: create_job never raises KeyError
+   (the historical finding is reachable only with values that do NOT cover the declarations) *)
+Theorem C06_accepted_no_keyerror : forall classify j t vals,
+  decode_job classify j = Ok t -> covers (jget "parameterDefinitions" j) vals ->
+  create_job_verdict classify vals t <> Raise KeyError.
+Proof. exact accepted_no_keyerror. Qed.
+Print Assumptions C06_accepted_no_keyerror.
+
+(* accepted template: the job name held by the decoded model resolves under create_job's table *)
+Theorem C06_accepted_name_resolves : forall classify j t vals,
+  decode_job classify j = Ok t -> covers (jget "parameterDefinitions" j) vals ->
+  exists fields s r, t = MModel "JobTemplate" fields /\ mfield "name" fields = MFmt s /\
+                     jget "name" j = JStr s /\ Export.fs_resolve classify (symtab_of vals) s = Ok r.
+Proof. exact accepted_name_resolves. Qed.
+Print Assumptions C06_accepted_name_resolves.
+
+(* accepted template: instantiate_model raises nothing but FormatStringError (neither KeyError nor
+   TypeError / AttributeError of a reshape key, and its fuel suffices) *)
+Theorem C06_accepted_inst_exn : forall classify j t vals e,
+  decode_job classify j = Ok t -> covers (jget "parameterDefinitions" j) vals ->
+  inst Generated.schema (Export.fs_resolve classify) (symtab_of vals) (S (mval_depth t)) t = Raise e ->
+  e = FormatStringError.
+Proof. exact accepted_inst_raises. Qed.
+Print Assumptions C06_accepted_inst_exn.
+
+(* C06_create_exn for accepted templates: the verdict is "a Job" / "DecodeValidationError", or the
+   model declares the case outside its domain (RuntimeError from the job-side re-validation of a
+   node: the harness does not judge such cases with the model).  No Python exception family
+   (KeyError, TypeError, AttributeError, FormatStringError) can escape. *)
+Theorem C06_accepted_create_exn : forall classify j t vals e,
+  decode_job classify j = Ok t -> covers (jget "parameterDefinitions" j) vals ->
+  create_job_verdict classify vals t = Raise e -> e = RuntimeError.
+Proof. exact accepted_create_exn. Qed.
+Print Assumptions C06_accepted_create_exn.
+
+(* the invariant behind it: every decoded tree is well keyed (items of reshaped lists have a
+   string key field; job parameter definitions have a plain-string name), because the live schema
+   passes the check [schema_keyed] *)
+Theorem C06_accepted_well_keyed : forall classify j t, decode_job classify j = Ok t -> wk Generated.schema t.
+Proof. exact accepted_wk. Qed.
+Print Assumptions C06_accepted_well_keyed.
+
+Theorem C06_inst_fuel : forall SC resolve sigma,
+  (forall s e, resolve sigma s = Raise e -> e = FormatStringError) ->
+  forall fuel v, mval_depth v < fuel -> inst SC resolve sigma fuel v <> Raise RuntimeError.
+Proof. exact inst_fuel_enough. Qed.
+Print Assumptions C06_inst_fuel.
+
+(* NOT proved here (kept as the full statements; covered by the correspondence check c06.py):
+     C06_create_exn_full : decode_job classify j = Ok t -> covers (jget "parameterDefinitions" j) vals ->
+       exists b, create_job_verdict classify vals t = Ok b          (nothing at all escapes);
+     C06_job_usable : create_job_verdict ... = Ok true -> iteration / graph construction succeed.
+   Proved of the first: everything except that the job-side re-validation [nodes_ok] never returns
+   RuntimeError (C06_accepted_create_exn).  Missing for that: the fuel S (S (S (mval_depth t))) of
+   nodes_ok suffices (depth of the instantiated tree <= depth of t) and parse_any on the EXPORT of an
+   instantiated node stays inside the modelled pydantic domain (e.g. no float field receives a
+   string) — a per-target-class fact about Export.to_object.
+   For the steps' ranges and host requirements the document-side statement C06_sites_resolve is
+   proved; its transfer to the decoded tree (as done for the name in C06_accepted_name_resolves)
+   needs the inversion of parse_cls through StepTemplate -> StepParameterSpaceDefinition ->
+   *TaskParameterDefinition / HostRequirementsTemplate. *)
+
+(* ------------------------------------------------------------------ non-vacuity *)
+Definition js (x : string) : json := JStr (str_of_string x).
+Definition jo (l : list (string * json)) : json := JObj (map (fun kv => (str_of_string (fst kv), snd kv)) l).
+
+Definition tdoc (job_name range_item : string) : json :=
+  jo [("specificationVersion", js "jobtemplate-2023-09");
+      ("name", js job_name);
+      ("parameterDefinitions",
+       JArr [jo [("name", js "Frames"); ("type", js "INT")];
+             jo [("name", js "Out"); ("type", js "PATH")]]);
+      ("steps",
+       JArr [jo [("name", js "A");
+                 ("parameterSpace",
+                  jo [("taskParameterDefinitions",
+                       JArr [jo [("name", js "X"); ("type", js "STRING"); ("range", JArr [js range_item])]])]);
+                 ("hostRequirements",
+                  jo [("attributes", JArr [jo [("name", js "attr.custom.tag"); ("anyOf", JArr [js "v{{RawParam.Frames}}"])]])]);
+                 ("script", jo [("actions", jo [("onRun", jo [("command", js "{{Param.Out}}")])])])]])].
+
+Definition tvals : list (str * str * str) :=
+  [($"Frames", $"INT", $"10"); ($"Out", $"PATH", $"/tmp/o")].
+
+Example C06_covers_nonvacuous :
+  map fst tvals = decl_pairs (jget "parameterDefinitions" (tdoc "J" "x")) /\
+  map fst (symtab_of tvals) = [$"Param.Frames"; $"RawParam.Frames"; $"RawParam.Out"].
+Proof. vm_compute. split; reflexivity. Qed.
+
+(* accepted, walk passes, three kinds of sites present, everything resolves *)
+Example C06_sites_nonvacuous :
+  let j := tdoc "Job {{Param.Frames}} {{RawParam.Out}}" "f{{RawParam.Frames}}" in
+  is_ok (decode_job ascii_class j) = true /\
+  prevalidate Generated.schema (fs_refs ascii_class) "JobTemplate" j = [] /\
+  template_sites j = [js "Job {{Param.Frames}} {{RawParam.Out}}"; js "f{{RawParam.Frames}}";
+                      js "attr.custom.tag"; js "v{{RawParam.Frames}}"] /\
+  Export.fs_resolve ascii_class (symtab_of tvals) $"Job {{Param.Frames}} {{RawParam.Out}}" = Ok $"Job 10 /tmp/o".
+Proof. vm_compute. repeat split. Qed.
+
+(* a PATH parameter's Param.<n> at a creation-time site is NOT bound by create_job, and the walk
+   rejects it there: both sides of the iff are false together *)
+Example C06_path_param_nonvacuous :
+  vis_template (jget "parameterDefinitions" (tdoc "J" "x")) $"Param.Out" = false /\
+  ~ In $"Param.Out" (map fst (symtab_of tvals)) /\
+  prevalidate Generated.schema (fs_refs ascii_class) "JobTemplate" (tdoc "{{Param.Out}}" "x")
+  = [ERef [LKey $"name"] $"Param.Out"].
+Proof.
+  split; [vm_compute; reflexivity|]. split; [|vm_compute; reflexivity].
+  vm_compute. intros H. repeat (destruct H as [H|H]; [discriminate H|]). exact H.
+Qed.
+
+(* create_job on the decoded template: a Job with all values; KeyError exactly when a declared
+   parameter has no value (the historical finding: reachable only by calling create_job without
+   preprocess_job_parameters) *)
+Example C06_create_nonvacuous :
+  exists t, decode_job ascii_class (tdoc "Job {{Param.Frames}}" "f{{RawParam.Frames}}") = Ok t /\
+    create_job_verdict ascii_class tvals t = Ok true /\
+    create_job_verdict ascii_class [($"Frames", $"INT", $"10")] t = Raise KeyError /\
+    adds_names Generated.schema t = [$"Frames"; $"Out"].
+Proof. eexists. split; [vm_compute; reflexivity|]. vm_compute. repeat split. Qed.
+
+Example C06_accepted_nonvacuous :
+  let j := tdoc "Job {{Param.Frames}} {{RawParam.Out}}" "f{{RawParam.Frames}}" in
+  is_ok (decode_job ascii_class j) = true /\ covers (jget "parameterDefinitions" j) tvals.
+Proof.
+  split; [vm_compute; reflexivity|]. apply decl_pairs_covers. vm_compute. reflexivity.
+Qed.
+
+Definition nP : str := [80%N].
+Definition d_al (z : Z) : pdef := mkDef nP INT None None (Some [mkNum z 0]) None None None None None None.
+
+Example C06_preprocess_nonvacuous :
+  [d_al 1; d_al 2] <> [] /\ Forall wf_default [d_al 1; d_al 2] /\
+  preprocess_merged true simple_path_in simple_path_default [d_al 1; d_al 2] [(nP, [49%N])] = Raise ValueError /\
+  preprocess_merged true simple_path_in simple_path_default [d_al 1; d_al 1] [(nP, [50%N])] = Raise ValueError /\
+  is_ok (preprocess_merged true simple_path_in simple_path_default [d_al 1; d_al 1] [(nP, [49%N])]) = true.
+Proof.
+  split; [discriminate|]. split.
+  - assert (W : forall z, wf_default (d_al z)) by (intros z _ t E; discriminate E).
+    constructor; [apply W|]. constructor; [apply W|]. constructor.
+  - vm_compute. repeat split.
+Qed.
